@@ -39,6 +39,10 @@ func decodeTok(s string) (nonce, ct []byte, ok bool) {
 }
 
 func propC07(r *Run) {
+	if r.Choose("handler-level", 8) == 0 {
+		propC07Handlers(r)
+		return
+	}
 	inBubble(r, func(rr *randRecorder) {
 		lifetimes := []time.Duration{2 * time.Second, 3 * time.Second, 600 * time.Second, time.Second}
 		nf := 1 + r.Choose("nfactories", 2)
@@ -204,6 +208,13 @@ func propC07(r *Run) {
 				}
 				for _, s := range []string{"", ":", "a:b", "::", t.text + "A", t.text + "=", "A" + t.text, t.text + ":" + t.text, strings.Repeat("A", 16) + ":" + strings.Repeat("A", 40)} {
 					present(t.factory, s, "arbitrary text")
+				}
+				// the same bytes, split differently between the two parts (canonically re-encoded)
+				all := append(append([]byte(nil), t.nonce...), t.ct...)
+				for k := 0; k <= len(all); k++ {
+					if k != len(t.nonce) {
+						present(t.factory, base64.URLEncoding.EncodeToString(all[:k])+":"+base64.URLEncoding.EncodeToString(all[k:]), fmt.Sprintf("nonce||ciphertext re-split at %d", k))
+					}
 				}
 				r.Count("fault:splice-truncate-sweep")
 			case 7: // tokens sealed with the factory's own AEAD but with unacceptable plaintext
